@@ -132,3 +132,62 @@ func IsScalar(v any) bool {
 	}
 	return false
 }
+
+// SharedValuePrograms builds, for every (leaf kind, shape), the statements that make `v` a finite value in which one
+// collection `leaf` is reachable along two paths (a DAG, not a cycle); use(v) is appended by the caller.
+func SharedValuePrograms() []struct {
+	Name string
+	Make func() []*gen.Node
+} {
+	id := gen.NIdent
+	i := gen.NInt
+	s := gen.NStr
+	leaves := []struct {
+		name string
+		mk   func() *gen.Node
+	}{
+		{"list", func() *gen.Node { return gen.NList(i(1), i(2)) }},
+		{"map", func() *gen.Node { return gen.NMap(s("x"), i(1)) }},
+		{"nested", func() *gen.Node { return gen.NList(gen.NMap(s("k"), gen.NList(i(7)))) }},
+		{"empty-list", func() *gen.Node { return gen.NList() }},
+		{"empty-map", func() *gen.Node { return gen.NMap() }},
+	}
+	shapes := []struct {
+		name string
+		mk   func() []*gen.Node
+	}{
+		{"[a,a]", func() []*gen.Node { return []*gen.Node{gen.NSet("v", gen.NList(id("leaf"), id("leaf")))} }},
+		{"{x:a,y:a}", func() []*gen.Node {
+			return []*gen.Node{gen.NSet("v", gen.NMap(s("x"), id("leaf"), s("y"), id("leaf")))}
+		}},
+		{"[mid,[a]]", func() []*gen.Node {
+			return []*gen.Node{gen.NSet("mid", gen.NMap(s("l"), id("leaf"))), gen.NSet("v", gen.NList(id("mid"), gen.NList(id("leaf"))))}
+		}},
+		{"[a,[a,[a]]]", func() []*gen.Node {
+			return []*gen.Node{gen.NSet("v", gen.NList(id("leaf"), gen.NList(id("leaf"), gen.NList(id("leaf")))))}
+		}},
+		{"{p:a,q:[a]}", func() []*gen.Node {
+			return []*gen.Node{gen.NSet("v", gen.NMap(s("p"), id("leaf"), s("q"), gen.NList(id("leaf"))))}
+		}},
+		{"by-writes", func() []*gen.Node {
+			return []*gen.Node{gen.NSet("v", gen.NList(i(0), i(0), i(0))), gen.NAssign("=", []*gen.Node{gen.NIndex(id("v"), i(0))}, []*gen.Node{id("leaf")}), gen.NAssign("=", []*gen.Node{gen.NIndex(id("v"), i(2))}, []*gen.Node{id("leaf")})}
+		}},
+		{"three-levels", func() []*gen.Node {
+			return []*gen.Node{gen.NSet("m1", gen.NList(id("leaf"))), gen.NSet("m2", gen.NMap(s("a"), id("m1"), s("b"), id("m1"))), gen.NSet("v", gen.NList(id("m2"), id("m1"), id("leaf")))}
+		}},
+	}
+	var out []struct {
+		Name string
+		Make func() []*gen.Node
+	}
+	for _, l := range leaves {
+		for _, sh := range shapes {
+			l, sh := l, sh
+			out = append(out, struct {
+				Name string
+				Make func() []*gen.Node
+			}{l.name + "/" + sh.name, func() []*gen.Node { return append([]*gen.Node{gen.NSet("leaf", l.mk())}, sh.mk()...) }})
+		}
+	}
+	return out
+}
